@@ -360,7 +360,7 @@ def stats(payload, ans):
             t.append("static-fluent")
     if _maxabs(e) > 2 ** 53:
         t.append("const>2^53")
-    t.append("leaves:%d" % sexp.dumps(e).count("(fl ") if False else "leaves:%d" % n_leaves(e))
+    t.append("leaves:%d" % n_leaves(e))
     return t
 
 
